@@ -4,6 +4,7 @@
 package main
 
 import (
+	"bytes"
 	"encoding/hex"
 	"fmt"
 	"math"
@@ -91,6 +92,32 @@ func (p *pair) nBound() int {
 }
 
 type marker struct{ tag string }
+
+type stabFinding struct {
+	class string
+	info  map[string]interface{}
+}
+
+// destLeaf: what a decode destination currently holds, as a pointer to the leaf value (nil: an
+// inner pointer still nil; the marker: an interface{} never written).
+func destLeaf(form int, dest interface{}) interface{} {
+	switch form {
+	case fPtr:
+		return dest
+	case fPtrPtr:
+		inner := reflect.ValueOf(dest).Elem()
+		if inner.IsNil() {
+			return nil
+		}
+		return inner.Interface()
+	default:
+		x := *(dest.(*interface{}))
+		if x == nil || x == interface{}(untouchedMarker) {
+			return x
+		}
+		return toLeafPtr(x)
+	}
+}
 
 var untouchedMarker = marker{"c13-untouched"}
 
@@ -199,8 +226,9 @@ func (rn *runner) runCase(lc *local, p *pair, vi int, seed int64) {
 		floaty     = t.kind == kF32 || t.kind == kF64 || (p.l != nil && (p.l.kind == lF32 || p.l.kind == lF64 || p.l.kind == lBigFloat))
 		noWireVal  bool
 		nullResult bool
+		stab       []stabFinding // source/destination stability findings of this case
 	)
-	lc.evals++
+	lc.evals += 2 // every case calls the codec twice (second call: same source / same destination)
 
 	if p.dir == "encode" {
 		var src interface{}
@@ -218,7 +246,33 @@ func (rn *runner) runCase(lc *local, p *pair, vi int, seed int64) {
 			pp.Elem().Set(reflect.ValueOf(src))
 			arg = pp.Interface()
 		}
+		before := snapshotLeaf(src)
 		panicked, panicVal = mon.Guard(func() { wire, err = t.codec.Encode(arg, version) })
+		if !panicked {
+			// (a) Encode must leave the caller's value alone, whatever it answers
+			if !sameLeaf(src, before) {
+				stab = append(stab, stabFinding{"source-mutated", map[string]interface{}{"source_before": describeLeaf(before), "source_after": describeLeaf(src)}})
+			}
+			if p.form == fPtrPtr && reflect.ValueOf(arg).Elem().Interface() != src {
+				stab = append(stab, stabFinding{"source-mutated", map[string]interface{}{"source_before": "inner pointer -> source", "source_after": "inner pointer replaced"}})
+			}
+			// (b) encoding the same object again must give the same answer
+			first := append([]byte(nil), wire...)
+			var wire2 []byte
+			var err2 error
+			p2, pv2 := mon.Guard(func() { wire2, err2 = t.codec.Encode(arg, version) })
+			switch {
+			case p2:
+				stab = append(stab, stabFinding{"second-encode-differs", map[string]interface{}{"first_bytes": hex.EncodeToString(first), "second": "panic: " + pv2}})
+			case (err == nil) != (err2 == nil) || !bytes.Equal(first, wire2) || (wire == nil) != (wire2 == nil):
+				stab = append(stab, stabFinding{"second-encode-differs", map[string]interface{}{
+					"first_bytes": hex.EncodeToString(first), "first_err": fmt.Sprint(err), "second_bytes": hex.EncodeToString(wire2), "second_err": fmt.Sprint(err2),
+					"source_after_first": describeLeaf(src)}})
+			}
+			if !bytes.Equal(first, wire) {
+				stab = append(stab, stabFinding{"second-encode-differs", map[string]interface{}{"first_bytes": hex.EncodeToString(first), "first_bytes_after_second_encode": hex.EncodeToString(wire)}})
+			}
+		}
 		if !panicked && err == nil {
 			var ok bool
 			if got, ok = t.wireValue(wire); !ok {
@@ -249,7 +303,12 @@ func (rn *runner) runCase(lc *local, p *pair, vi int, seed int64) {
 			var x interface{} = untouchedMarker
 			dest = &x
 		}
+		wireBefore := append([]byte(nil), wire...)
 		panicked, panicVal = mon.Guard(func() { wasNull, err = t.codec.Decode(wire, dest, version) })
+		if !panicked && !bytes.Equal(wire, wireBefore) {
+			stab = append(stab, stabFinding{"source-bytes-mutated", map[string]interface{}{"bytes_before": hex.EncodeToString(wireBefore), "bytes_after": hex.EncodeToString(wire)}})
+			wire = wireBefore
+		}
 		if !panicked && err == nil {
 			if wasNull {
 				nullResult = true
@@ -284,6 +343,27 @@ func (rn *runner) runCase(lc *local, p *pair, vi int, seed int64) {
 				}
 			}
 		}
+		if !panicked {
+			// decoding the same bytes again into the same destination must give the same answer
+			after1 := snapshotLeaf(destLeaf(p.form, dest))
+			var wasNull2 bool
+			var err2 error
+			p2, pv2 := mon.Guard(func() { wasNull2, err2 = t.codec.Decode(wire, dest, version) })
+			switch {
+			case p2:
+				stab = append(stab, stabFinding{"second-decode-differs", map[string]interface{}{"second": "panic: " + pv2}})
+			case (err == nil) != (err2 == nil) || wasNull != wasNull2:
+				stab = append(stab, stabFinding{"second-decode-differs", map[string]interface{}{
+					"first_err": fmt.Sprint(err), "first_wasNull": wasNull, "second_err": fmt.Sprint(err2), "second_wasNull": wasNull2}})
+			case err == nil && !sameLeaf(after1, destLeaf(p.form, dest)):
+				stab = append(stab, stabFinding{"second-decode-differs", map[string]interface{}{
+					"destination_after_first": describeLeaf(after1), "destination_after_second": describeLeaf(destLeaf(p.form, dest))}})
+			}
+			if !bytes.Equal(wire, wireBefore) {
+				stab = append(stab, stabFinding{"source-bytes-mutated", map[string]interface{}{"bytes_before": hex.EncodeToString(wireBefore), "bytes_after_second_decode": hex.EncodeToString(wire)}})
+				wire = wireBefore
+			}
+		}
 	}
 
 	bucket := "?"
@@ -315,6 +395,16 @@ func (rn *runner) runCase(lc *local, p *pair, vi int, seed int64) {
 	}
 	outcome := "ok"
 	defer func() { lc.distinct[p.name()+"|"+outcome+"|"+bucket] = struct{}{} }()
+	for _, f := range stab {
+		d := detail(f.class, -1)
+		for k, v := range f.info {
+			d[k] = v
+		}
+		rn.violation(key(-1, f.class), d)
+	}
+	if len(stab) == 0 {
+		lc.count(p.dir + "_second_call_identical")
+	}
 
 	switch {
 	case panicked:
